@@ -80,7 +80,11 @@ func c06Fnv(b []byte) uint32 {
 }
 
 // one flow: handle the datagrams in order, record what reaches the outbound after each
-func c06RunFlow(qc *c06QuicCase) (op, out string) {
+func c06RunFlow(qc *c06QuicCase) (op, out string) { return c06RunFlowNoise(qc, nil) }
+
+// noise: datagrams of OTHER flows (different source ports) handled between the datagrams of the flow
+// under test, so that pooled buffers are handed back and drawn again while datagrams are withheld.
+func c06RunFlowNoise(qc *c06QuicCase, noise [][]byte) (op, out string) {
 	var os_ []string
 	for _, se := range qc.oracle {
 		if se.dead {
@@ -120,17 +124,42 @@ func c06RunFlow(qc *c06QuicCase) (op, out string) {
 	out = VRecover(func() string {
 		var steps []string
 		seen := 0
-		for _, d := range qc.datagrams {
+		noiseSet := map[string]bool{}
+		for k, nd := range noise {
+			noiseSet[string(nd)] = true
+			_ = k
+		}
+		handle := func(from netip.AddrPort, d []byte) error {
+			// the ingress buffer is pooled: it is overwritten as soon as handlePkt returns
 			data := append([]byte(nil), d...)
-			fd := ClassifyUdpFlow(src, dst, data)
+			fd := ClassifyUdpFlow(from, dst, data)
 			if fd.IsQuicInitial {
 				fd = fd.EnsureSnifferSession()
 			}
-			if err := cp.handlePkt(nil, data, src, dst, routingResult, fd, false); err != nil {
+			rr := *routingResult
+			err := cp.handlePkt(nil, data, from, dst, &rr, fd, false)
+			for i := range data {
+				data[i] = 0x5a
+			}
+			return err
+		}
+		for i, d := range qc.datagrams {
+			if err := handle(src, d); err != nil {
 				return "handlePkt-error:" + strings.ReplaceAll(err.Error(), " ", "_")
 			}
+			if i < len(noise) {
+				other := netip.AddrPortFrom(src.Addr(), uint16(50000+i))
+				if err := handle(other, noise[i]); err != nil {
+					return "handlePkt-error(noise):" + strings.ReplaceAll(err.Error(), " ", "_")
+				}
+			}
 			conn.mu.Lock()
-			now := conn.writes[seen:]
+			var now [][]byte
+			for _, w := range conn.writes[seen:] {
+				if !noiseSet[string(w)] {
+					now = append(now, w)
+				}
+			}
 			seen = len(conn.writes)
 			conn.mu.Unlock()
 			if len(now) == 0 {
@@ -145,7 +174,10 @@ func c06RunFlow(qc *c06QuicCase) (op, out string) {
 		}
 		// what is still buffered in sniffer sessions, and the endpoint's sniffed domain
 		held := 0
-		DefaultPacketSnifferSessionMgr.pool.Range(func(_, v any) bool {
+		DefaultPacketSnifferSessionMgr.pool.Range(func(k, v any) bool {
+			if k.(PacketSnifferKey).LAddr != src {
+				return true
+			}
 			ps := v.(*PacketSniffer)
 			ps.Mu.Lock()
 			if n := len(ps.Data()); n > 1 {
@@ -158,8 +190,8 @@ func c06RunFlow(qc *c06QuicCase) (op, out string) {
 		for i := range udpEndpointCreateShardCount {
 			shard := &DefaultUdpEndpointPool.shards[i]
 			shard.mu.RLock()
-			for _, ue := range shard.pool {
-				if ue.SniffedDomain != "" {
+			for key, ue := range shard.pool {
+				if key.Src == src && ue.SniffedDomain != "" {
 					dom = ue.SniffedDomain
 				}
 			}
@@ -223,7 +255,15 @@ func TestVerifC06Flow(t *testing.T) {
 		if qc.hasClose {
 			kind = "close_frame"
 		}
-		op, out := c06RunFlow(qc)
+		var noise [][]byte
+		if g.r.Chance(0.4) { // other flows in between: incomplete Initials that are held too (pool churn)
+			for k := 0; k < len(qc.datagrams); k++ {
+				nq := g.quicCase(g.hello().h.Handshake(), c06QuicV1)
+				noise = append(noise, nq.datagrams[0])
+			}
+			g.stats.Inc("flow.with_noise_flows")
+		}
+		op, out := c06RunFlowNoise(qc, noise)
 		st.Emit(op, out)
 		g.stats.Inc("flow." + kind)
 		g.stats.Inc(fmt.Sprintf("flow.datagrams.%d", len(qc.datagrams)))
@@ -252,6 +292,52 @@ func TestVerifC06Flow(t *testing.T) {
 			if kind != "short_header_between" && hc.expect != "?" && hc.expect != "nf" && hc.expect != "na" && c06FlowField(out, "dom") != c06Hex([]byte(hc.expect)) {
 				fmt.Fprintf(viol, "flow's sniffed domain is %s, the ClientHello carries %s (%s)\n", c06FlowField(out, "dom"), c06Hex([]byte(hc.expect)), hc.class)
 			}
+		}
+	}
+	// Two QUIC connections (different DCIDs) opening on one 4-tuple, datagrams interleaved. No model
+	// behind this stream (the flow model has one session): only the property itself — every datagram
+	// reaches the outbound exactly once, each connection's datagrams in their ingress order.
+	m := n / 4
+	for i := 0; i < m; i++ {
+		var qa, qb *c06QuicCase
+		for tries := 0; tries < 50; tries++ {
+			qa = g.quicCase(g.hello().h.Handshake(), c06QuicV1)
+			qb = g.quicCase(g.hello().h.Handshake(), c06QuicV1)
+			if len(qa.datagrams) >= 2 && len(qa.oracle[0].dcid) >= 8 && len(qb.oracle[0].dcid) >= 8 && !qa.hasClose && !qb.hasClose {
+				break
+			}
+		}
+		if len(qa.datagrams) < 2 {
+			continue
+		}
+		// interleave: A1, then B's datagrams, then the rest of A
+		mix := &c06QuicCase{}
+		mix.datagrams = append(mix.datagrams, qa.datagrams[0])
+		mix.datagrams = append(mix.datagrams, qb.datagrams...)
+		mix.datagrams = append(mix.datagrams, qa.datagrams[1:]...)
+		_, out := c06RunFlowNoise(mix, nil)
+		g.stats.Inc("flow.two_connections")
+		var got []string
+		for _, s := range strings.Fields(out) {
+			if strings.HasPrefix(s, "held=") || strings.HasPrefix(s, "dom=") || s == "-" {
+				continue
+			}
+			got = append(got, strings.Split(s, ",")...)
+		}
+		count := map[string]int{}
+		for _, x := range got {
+			count[x]++
+		}
+		missing := 0
+		for _, d := range mix.datagrams {
+			k := fmt.Sprintf("%d:%d", len(d), c06Fnv(d))
+			if count[k] == 0 {
+				missing++
+			}
+			count[k]--
+		}
+		if missing > 0 || strings.HasPrefix(out, "crash:") {
+			fmt.Fprintf(viol, "two QUIC connections on one 4-tuple: %d of %d datagrams never reached the outbound: %.300s\n", missing, len(mix.datagrams), out)
 		}
 	}
 	g.stats.Write("c06flow")
